@@ -167,7 +167,6 @@ int main(int argc, char **argv)
         std::vector<Obs> o0(L);
         std::vector<std::string> st_text(L);
         std::vector<std::vector<unsigned char>> st_bin(L);
-        bool bad = false;
         for (int s = 0; s < L; s++) {
           if (!d0.step(word[s], s, o0[s], err)) { fprintf(stderr, "HARNESS-ERROR: %s step error: %s\n", c.name, err.c_str()); exit(2); }
           r.count("transitions");
@@ -206,8 +205,10 @@ int main(int argc, char **argv)
         std::string base = std::string("{\"config\":\"") + c.name + "\",\"timing\":\"" + (ss ? "same-step" : "lagged") + "\",\"history\":" + wj;
 
         // ---- R1: stop at K, fresh module, load, continue ----
-        for (int K = 0; K < L && !bad; K++) {
-          for (int bin = 0; bin <= 1 && !bad; bin++) {
+        // every (stop step, format) is judged on its own: a violation at one stop step must not hide the others
+        for (int K = 0; K < L; K++) {
+          for (int bin = 0; bin <= 1; bin++) {
+           auto one_case = [&]() {
             r.count("evaluations");
             double rel = bin ? 1e-12 : 1e-9;
             std::string det = base + ",\"stop_step\":" + std::to_string(K) + ",\"format\":\"" + (bin ? "binary" : "text") + "\"";
@@ -220,13 +221,12 @@ int main(int argc, char **argv)
               d2.px->colvars->setup_input();
               int e = cvm::get_error();
               cvm::clear_error();
-              if (e) { r.violation(std::string("C03:load:error-loading-own-state:") + c.name, det + ",\"error\":\"" + jesc(d2.px->errtxt.substr(0, 300)) + "\"}"); bad = true; break; }
+              if (e) { r.violation(std::string("C03:load:error-loading-own-state:") + c.name, det + ",\"error\":\"" + jesc(d2.px->errtxt.substr(0, 300)) + "\"}"); return; }
               std::string again = d2.px->state_text();
               std::string df = state_diff(st_text[K], again, rel);
               if (df.size()) {
                 r.violation(std::string("C03:load-then-save-differs:") + c.name, det + ",\"difference\":\"" + jesc(df) + "\"}");
-                bad = true;
-                break;
+                return;
               }
             }
             Driver d1(c, ss != 0);
@@ -236,14 +236,12 @@ int main(int argc, char **argv)
             for (int s = K; s < L; s++) {
               if (!d1.step(word[s], s, o, err)) {
                 r.violation(std::string("C03:resumed-run-error:") + c.name, det + ",\"step\":" + std::to_string(s) + ",\"error\":\"" + jesc(err.substr(0, 300)) + "\"}");
-                bad = true;
-                break;
+                return;
               }
               r.count("transitions");
               if (cvm::step_absolute() != s) {
                 r.violation(std::string("C03:resumed-run-step-number:") + c.name, det + "}");
-                bad = true;
-                break;
+                return;
               }
               double scale = 1.0;
               for (double x : o0[s].v) scale = std::max(scale, std::fabs(x));
@@ -254,16 +252,15 @@ int main(int argc, char **argv)
                 std::string when = (s == K) ? "at-the-repeated-step" : "after-the-stop";
                 r.violation(std::string("C03:resumed-run-differs:") + c.name + ":" + what + ":" + when,
                             det + ",\"step\":" + std::to_string(s) + ",\"resumed\":" + num(o.v[which]) + ",\"uninterrupted\":" + num(o0[s].v[which]) + "}");
-                bad = true;
-                break;
+                return;
               }
             }
-            if (bad) break;
             std::string df = state_diff(final0, d1.px->state_text(), rel);
             if (df.size()) {
               r.violation(std::string("C03:final-state-differs:") + c.name, det + ",\"difference\":\"" + jesc(df) + "\"}");
-              bad = true;
             }
+           };
+           one_case();
           }
         }
         r.seen("nontrivial", fnv(base));
